@@ -40,12 +40,12 @@ def task_nf(t, actions, subwfs, rows):
     for a in actions:
         if a.get('accepted'):
             out = a.j('output') or {}
-            accepted.append(((a.j('runtime_context') or {}).get('index', 0),
-                             a['state'], canon(scrub(out.get('result')))))
+            accepted.append([(a.j('runtime_context') or {}).get('index', 0),
+                             a['state'], canon(scrub(out.get('result')))])
     children = []
     for w in subwfs:
-        children.append(((w.j('runtime_context') or {}).get('index', 0),
-                         wf_nf(w, rows)))
+        children.append([(w.j('runtime_context') or {}).get('index', 0),
+                         wf_nf(w, rows)])
     nxt = sorted(tuple(x) for x in (t.j('next_tasks') or []))
     return {
         'name': t['name'],
